@@ -35,7 +35,7 @@ package ledger
 //@   ensures len(s) == len(old(s)) && forall i int :: {s[i]} 0 <= i && i < len(s) ==> s[i] == old(s)[len(s) - 1 - i]
 
 // b is a reversed: b[j] == a[len(a)-1-j]. A fold over a prefix of the reversed list is the fold over the matching suffix.
-//@ function isRev(a []ledger.Posting, b []ledger.Posting) bool = len(a) == len(b) && forall j int :: {b[j]} 0 <= j && j < len(b) ==> b[j] == a[len(a) - 1 - j]
+//@ function isRev(a []ledger.Posting, b []ledger.Posting) bool = len(a) == len(b) && (forall j int :: {b[j]} 0 <= j && j < len(b) ==> b[j] == a[len(a) - 1 - j]) && (forall j int :: {a[j]} 0 <= j && j < len(a) ==> a[j] == b[len(a) - 1 - j])
 
 // runIn / runOut(P, L, m, acc, x): the input / output volume of (acc, x) once the postings P[m:] are undone from the final
 // volumes L, i.e. the running volume after the first m postings of the transaction were applied.
@@ -58,8 +58,8 @@ package ledger
 //@   ensures err == nil ==> (nInsertMoves == old(nInsertMoves) + 1) == (store.ledger.Features["MOVES_HISTORY"] == "ON")
 //@   ensures err == nil && store.ledger.Features["MOVES_HISTORY"] != "ON" ==> nInsertMoves == old(nInsertMoves)
 //@   ensures err == nil && nInsertMoves == old(nInsertMoves) + 1 ==> len(lastMoves) == 2 * len(tx.Postings)
-//@   ensures err == nil && nInsertMoves == old(nInsertMoves) + 1 ==> forall i int :: {lastMoves[2 * i]} 0 <= i && i < len(tx.Postings) ==> lastMoves[2 * i] != nil && lastMoves[2 * i].IsSource && lastMoves[2 * i].Account == tx.Postings[i].Source && lastMoves[2 * i].Asset == tx.Postings[i].Asset && lastMoves[2 * i].Amount == tx.Postings[i].Amount && lastMoves[2 * i].PostCommitVolumes != nil && val(lastMoves[2 * i].PostCommitVolumes.Input) == runIn(tx.Postings, lastPCV, i, tx.Postings[i].Source, tx.Postings[i].Asset) && val(lastMoves[2 * i].PostCommitVolumes.Output) == runOut(tx.Postings, lastPCV, i + 1, tx.Postings[i].Source, tx.Postings[i].Asset)
-//@   ensures err == nil && nInsertMoves == old(nInsertMoves) + 1 ==> forall i int :: {lastMoves[2 * i + 1]} 0 <= i && i < len(tx.Postings) ==> lastMoves[2 * i + 1] != nil && !lastMoves[2 * i + 1].IsSource && lastMoves[2 * i + 1].Account == tx.Postings[i].Destination && lastMoves[2 * i + 1].Asset == tx.Postings[i].Asset && lastMoves[2 * i + 1].Amount == tx.Postings[i].Amount && lastMoves[2 * i + 1].PostCommitVolumes != nil && val(lastMoves[2 * i + 1].PostCommitVolumes.Input) == runIn(tx.Postings, lastPCV, i + 1, tx.Postings[i].Destination, tx.Postings[i].Asset) && val(lastMoves[2 * i + 1].PostCommitVolumes.Output) == runOut(tx.Postings, lastPCV, i + 1, tx.Postings[i].Destination, tx.Postings[i].Asset)
+//@   ensures err == nil && nInsertMoves == old(nInsertMoves) + 1 ==> forall i int :: {tx.Postings[i]} 0 <= i && i < len(tx.Postings) ==> lastMoves[2 * i] != nil && lastMoves[2 * i].PostCommitVolumes != nil && lastMoves[2 * i].IsSource && lastMoves[2 * i].Account == tx.Postings[i].Source && lastMoves[2 * i].Asset == tx.Postings[i].Asset && lastMoves[2 * i].Amount == tx.Postings[i].Amount && val(lastMoves[2 * i].PostCommitVolumes.Input) == runIn(tx.Postings, lastPCV, i, tx.Postings[i].Source, tx.Postings[i].Asset) && val(lastMoves[2 * i].PostCommitVolumes.Output) == runOut(tx.Postings, lastPCV, i + 1, tx.Postings[i].Source, tx.Postings[i].Asset)
+//@   ensures err == nil && nInsertMoves == old(nInsertMoves) + 1 ==> forall i int :: {tx.Postings[i]} 0 <= i && i < len(tx.Postings) ==> lastMoves[2 * i + 1] != nil && lastMoves[2 * i + 1].PostCommitVolumes != nil && !lastMoves[2 * i + 1].IsSource && lastMoves[2 * i + 1].Account == tx.Postings[i].Destination && lastMoves[2 * i + 1].Asset == tx.Postings[i].Asset && lastMoves[2 * i + 1].Amount == tx.Postings[i].Amount && val(lastMoves[2 * i + 1].PostCommitVolumes.Input) == runIn(tx.Postings, lastPCV, i + 1, tx.Postings[i].Destination, tx.Postings[i].Asset) && val(lastMoves[2 * i + 1].PostCommitVolumes.Output) == runOut(tx.Postings, lastPCV, i + 1, tx.Postings[i].Destination, tx.Postings[i].Asset)
 //@   loop 1:
 //@     index k
 //@     mention pcvHas(lastPCV, posting.Source, posting.Asset)
@@ -73,9 +73,8 @@ package ledger
 //@     invariant forall acc string, x string :: {pcvHas(postCommitVolumes, acc, x)} {pcvHas(lastPCV, acc, x)} pcvHas(postCommitVolumes, acc, x) == pcvHas(lastPCV, acc, x)
 //@     invariant forall acc string, x string :: {pcvIn(postCommitVolumes, acc, x)} {runIn(tx.Postings, lastPCV, len(tx.Postings) - k, acc, x)} pcvHas(lastPCV, acc, x) ==> pcvIn(postCommitVolumes, acc, x) == runIn(tx.Postings, lastPCV, len(tx.Postings) - k, acc, x)
 //@     invariant forall acc string, x string :: {pcvOut(postCommitVolumes, acc, x)} {runOut(tx.Postings, lastPCV, len(tx.Postings) - k, acc, x)} pcvHas(lastPCV, acc, x) ==> pcvOut(postCommitVolumes, acc, x) == runOut(tx.Postings, lastPCV, len(tx.Postings) - k, acc, x)
-//@     invariant forall t int :: {moves[t]} 0 <= t && t < 2 * k ==> moves[t] != nil && moves[t].PostCommitVolumes != nil && moves[t].Asset == tx.Postings[(len(tx.Postings) - 1 - t / 2)].Asset && moves[t].Amount == tx.Postings[(len(tx.Postings) - 1 - t / 2)].Amount
-//@     invariant forall t int :: {moves[t]} 0 <= t && t < 2 * k && t % 2 == 0 ==> !moves[t].IsSource && moves[t].Account == tx.Postings[(len(tx.Postings) - 1 - t / 2)].Destination && val(moves[t].PostCommitVolumes.Input) == runIn(tx.Postings, lastPCV, (len(tx.Postings) - 1 - t / 2) + 1, tx.Postings[(len(tx.Postings) - 1 - t / 2)].Destination, tx.Postings[(len(tx.Postings) - 1 - t / 2)].Asset) && val(moves[t].PostCommitVolumes.Output) == runOut(tx.Postings, lastPCV, (len(tx.Postings) - 1 - t / 2) + 1, tx.Postings[(len(tx.Postings) - 1 - t / 2)].Destination, tx.Postings[(len(tx.Postings) - 1 - t / 2)].Asset)
-//@     invariant forall t int :: {moves[t]} 0 <= t && t < 2 * k && t % 2 == 1 ==> moves[t].IsSource && moves[t].Account == tx.Postings[(len(tx.Postings) - 1 - t / 2)].Source && val(moves[t].PostCommitVolumes.Input) == runIn(tx.Postings, lastPCV, (len(tx.Postings) - 1 - t / 2), tx.Postings[(len(tx.Postings) - 1 - t / 2)].Source, tx.Postings[(len(tx.Postings) - 1 - t / 2)].Asset) && val(moves[t].PostCommitVolumes.Output) == runOut(tx.Postings, lastPCV, (len(tx.Postings) - 1 - t / 2) + 1, tx.Postings[(len(tx.Postings) - 1 - t / 2)].Source, tx.Postings[(len(tx.Postings) - 1 - t / 2)].Asset)
+//@     invariant forall j int :: {postings[j]} 0 <= j && j < k ==> moves[2 * j] != nil && moves[2 * j].PostCommitVolumes != nil && !moves[2 * j].IsSource && moves[2 * j].Account == postings[j].Destination && moves[2 * j].Asset == postings[j].Asset && moves[2 * j].Amount == postings[j].Amount && val(moves[2 * j].PostCommitVolumes.Input) == runIn(tx.Postings, lastPCV, len(tx.Postings) - j, postings[j].Destination, postings[j].Asset) && val(moves[2 * j].PostCommitVolumes.Output) == runOut(tx.Postings, lastPCV, len(tx.Postings) - j, postings[j].Destination, postings[j].Asset)
+//@     invariant forall j int :: {postings[j]} 0 <= j && j < k ==> moves[2 * j + 1] != nil && moves[2 * j + 1].PostCommitVolumes != nil && moves[2 * j + 1].IsSource && moves[2 * j + 1].Account == postings[j].Source && moves[2 * j + 1].Asset == postings[j].Asset && moves[2 * j + 1].Amount == postings[j].Amount && val(moves[2 * j + 1].PostCommitVolumes.Input) == runIn(tx.Postings, lastPCV, len(tx.Postings) - 1 - j, postings[j].Source, postings[j].Asset) && val(moves[2 * j + 1].PostCommitVolumes.Output) == runOut(tx.Postings, lastPCV, len(tx.Postings) - j, postings[j].Source, postings[j].Asset)
 
 // ---- resource handlers: which feature gates which read (C17 C35) -------------------------------------------
 // The bun query builder is abstracted to a descriptor: which JOIN fragments and which column expressions a
